@@ -74,19 +74,40 @@ Fixpoint scan_until (pat : list Z) (l : list Z) : option (Z * bool) :=
       else r <- scan_until pat t ;; Some (1 + fst r, snd r)
   end.
 
-(* loop of shiftDOCTYPEText: q is the quote character of the literal the scan is in (0 = none),
-   inB the inBrackets flag *)
-Fixpoint scan_doctype (q : Z) (inB : bool) (l : list Z) : option (Z * bool) :=
+(* loop of shiftDOCTYPEText.  State: q = the quote character of the literal the scan is in (0 = none),
+   inB = inBrackets, sk = skipTo (0 = nil, 1 = "-->", 2 = "?>"), pend = bytes of an already matched
+   keyword still to be moved over (the Move(3) / Move(1) / Move(len(skipTo)-1) before the final Move(1)). *)
+Definition dt_comment_open : list Z := [60; 33; 45; 45].       (* <!-- *)
+Definition dt_skip_pat (sk : Z) : list Z := if sk =? 1 then [45; 45; 62] else [63; 62].   (* --> or ?> *)
+Definition bump (o : option (Z * bool)) : option (Z * bool) := r <- o ;; Some (1 + fst r, snd r).
+
+Fixpoint scan_doctype (pend : nat) (q : Z) (inB : bool) (sk : Z) (l : list Z) : option (Z * bool) :=
   match l with
   | [] => None
   | c :: t =>
-      let inS := negb (q =? 0) in
-      if (c =? q) && inS then r <- scan_doctype 0 inB t ;; Some (1 + fst r, snd r)
-      else if ((c =? 34) || (c =? 39)) && negb inS then r <- scan_doctype c inB t ;; Some (1 + fst r, snd r)
-      else if ((c =? 91) || (c =? 93)) && negb inS then r <- scan_doctype q (c =? 91) t ;; Some (1 + fst r, snd r)
-      else if (c =? 62) && negb inS && negb inB then Some (0, true)
-      else if c =? 0 then Some (0, false)
-      else r <- scan_doctype q inB t ;; Some (1 + fst r, snd r)
+      match pend with
+      | S p => bump (scan_doctype p q inB sk t)
+      | O =>
+          let inS := negb (q =? 0) in
+          if c =? 0 then Some (0, false)
+          else if negb (sk =? 0) then
+            m <- at_l (dt_skip_pat sk) l ;;
+            if m then bump (scan_doctype (length (dt_skip_pat sk) - 1) q inB 0 t)
+            else bump (scan_doctype 0 q inB sk t)
+          else if (c =? q) && inS then bump (scan_doctype 0 0 inB 0 t)
+          else if ((c =? 34) || (c =? 39)) && negb inS then bump (scan_doctype 0 c inB 0 t)
+          else
+            mc <- (if (c =? 60) && inB && negb inS then at_l dt_comment_open l else Some false) ;;
+            if mc then bump (scan_doctype 3 q inB 1 t)
+            else
+              mp <- (if (c =? 60) && inB && negb inS
+                     then match t with [] => None | c1 :: _ => Some (c1 =? 63) end
+                     else Some false) ;;
+              if mp then bump (scan_doctype 1 q inB 2 t)
+              else if ((c =? 91) || (c =? 93)) && negb inS then bump (scan_doctype 0 q (c =? 91) 0 t)
+              else if (c =? 62) && negb inS && negb inB then Some (0, true)
+              else bump (scan_doctype 0 q inB 0 t)
+      end
   end.
 
 (* number of leading whitespace bytes (the backwards loop of shiftEndTag runs on the reversed text) *)
@@ -155,7 +176,7 @@ Definition shift_cdata (z : lx) : option sres :=
   Some (Some t, fst sh, snd sh).
 
 Definition shift_doctype (z : lx) : option sres :=
-  r <- scan_doctype 0 false (suffix z) ;;
+  r <- scan_doctype 0 0 false 0 (suffix z) ;;
   let z1 := mv z (fst r) in
   t <- lex_sub z1 9 (mark z1) ;;
   sh <- shift_c (if snd r then mv z1 1 else z1) ;;
